@@ -20,7 +20,7 @@ uint32_t stub_due_data(void) { polls = 0; return slot_word(slot++); }
 uint32_t esp_random(void) { return slot_word(slot++); }
 /* STM32 HAL */
 typedef struct { int instance; } RNG_HandleTypeDef; RNG_HandleTypeDef hrng;
-int HAL_RNG_GenerateRandomNumber(RNG_HandleTypeDef *h, uint32_t *x) { (void)h; unsigned k = slot++; if (slot_fails(k)) { hit_failure = 1; return 1; } *x = slot_word(k); return 0; }
+int HAL_RNG_GenerateRandomNumber(RNG_HandleTypeDef *h, uint32_t *x) { (void)h; unsigned k = slot++; if (slot_fails(k)) { hit_failure = 1; return 1 + (int)(k % 3); } *x = slot_word(k); return 0; }   /* failures answer HAL_ERROR, HAL_BUSY or HAL_TIMEOUT in turn: the word is left unwritten */
 uint32_t HAL_GetTick(void) { return 12345; }
 /* Windows CryptoAPI */
 int CryptAcquireContextW(uintptr_t *prov, const void *c, const void *p, unsigned long type, unsigned long flags) { (void)c; (void)p; (void)type; (void)flags; if (acquire_fail) { hit_failure = 1; return 0; } acquires++; *prov = 0x1234; return 1; }
